@@ -138,7 +138,7 @@ const (
 		promises
 	WHERE
 		(? IS NULL OR sort_id < ?) AND
-		id LIKE ? AND
+		id GLOB ? AND
 		state & ? != 0
 		%s
 	ORDER BY
@@ -201,7 +201,7 @@ const (
 		schedules
 	WHERE
 		(? IS NULL OR sort_id < ?) AND
-		id LIKE ?
+		id GLOB ?
 		%s
 	ORDER BY
 		sort_id DESC
@@ -361,6 +361,13 @@ const (
 	WHERE
 		process_id = ? AND state = 4`
 )
+
+// globPattern converts a search id, in which only "*" is a wildcard, to a GLOB
+// pattern: GLOB (unlike LIKE) compares case sensitively and has no "_" and "%"
+// wildcards, its own special characters "?" and "[" are made literal.
+func globPattern(id string) string {
+	return strings.NewReplacer("?", "[?]", "[", "[[]").Replace(id)
+}
 
 // Config
 
@@ -906,7 +913,7 @@ func (w *SqliteStoreWorker) searchPromises(tx *sql.Tx, cmd *t_aio.SearchPromises
 	util.Assert(cmd.Tags != nil, "tags cannot be empty")
 
 	// convert query
-	id := strings.ReplaceAll(cmd.Id, "*", "%")
+	id := globPattern(cmd.Id)
 
 	// convert list of state to bit mask
 	mask := 0
@@ -1224,7 +1231,7 @@ func (w *SqliteStoreWorker) searchSchedules(tx *sql.Tx, cmd *t_aio.SearchSchedul
 	util.Assert(cmd.Tags != nil, "tags cannot be empty")
 
 	// convert query
-	id := strings.ReplaceAll(cmd.Id, "*", "%")
+	id := globPattern(cmd.Id)
 
 	// tags
 	placeholders := []string{}
